@@ -96,7 +96,7 @@ class ComplexCircularSymmetricGaussianTrainer:
             denominator = np.array(y.shape[-2])
         else:
             denominator = np.maximum(
-                np.einsum("...n->...", saliency),
+                np.sum(saliency, axis=-1),
                 np.finfo(y.dtype).tiny
             )
 
